@@ -372,6 +372,14 @@ pub fn run() {
 		let p = P { class: "config", ..Default::default() };
 		eval_case("arrow", o_arrow, &bytes, &p, || abs.describe(), local);
 	});
+	{
+		let uni = universe(cx.quick());
+		par_each(uni.into_iter(), |abs, local| {
+			let bytes = Arc::new(record(&abs).doc.assemble());
+			let p = P { class: "universe", ..Default::default() };
+			eval_case("arrow", o_arrow, &bytes, &p, || abs.describe(), local);
+		});
+	}
 	let depth = if cx.quick() { None } else { Some(Depth::Quick) };
 	if let Some(d) = depth {
 		let mut hs = vec![];
